@@ -66,6 +66,20 @@ impl EventIdGenerator {
         Self::default()
     }
 
+    /// Records an id that already exists in the shard (recovered from the WAL or stored in a
+    /// segment) so that every id handed out afterwards is strictly greater, even when the
+    /// wall clock is at or behind the millisecond the observed id was generated in.
+    pub fn observe(&mut self, id: EventId) {
+        let raw = id.raw();
+        let millis = (raw >> (SHARD_ID_BITS + SEQUENCE_BITS)) + CUSTOM_EPOCH_MILLIS;
+        let sequence = (raw & SEQUENCE_MASK as u64) as u16;
+
+        if (millis, sequence) > (self.last_millis, self.sequence) {
+            self.last_millis = millis;
+            self.sequence = sequence;
+        }
+    }
+
     pub fn next(&mut self, shard_id: u16) -> EventId {
         let mut millis = current_millis();
 
@@ -77,7 +91,14 @@ impl EventIdGenerator {
         if millis == self.last_millis {
             self.sequence = self.sequence.wrapping_add(1) & SEQUENCE_MASK;
             if self.sequence == 0 {
-                millis = wait_next_millis(self.last_millis);
+                // Sequence space of this millisecond is used up. While the wall clock is
+                // behind `last_millis` (backwards step) move on to the next millisecond
+                // instead of spinning until the clock has caught up.
+                millis = if current_millis() < self.last_millis {
+                    self.last_millis + 1
+                } else {
+                    wait_next_millis(self.last_millis)
+                };
             }
         } else {
             self.sequence = 0;
